@@ -303,6 +303,62 @@ def install(ctx):
             return Ref(Loc(Cell(s.trim_matches_byte(lambda b: b == c), 'trim')))
         raise Unsupported('trim_matches pattern %r' % (pat,))
 
+    @M.reg('str::trim_start_matches', 'str::trim_end_matches')
+    def trim_one_side(ip, pc, args, dt):
+        s, pat = as_str(args[0]), args[1]
+        if not (isinstance(pat, S) and pat.ty == 'char'):
+            raise Unsupported('%s pattern %r' % (pc['method'], pat))
+        c = concrete_int(pat.t)
+        if c is None or c >= 0x80:
+            raise Unsupported('trim of a non-ASCII / symbolic char')
+        both = s.trim_matches_byte(lambda b: b == c)
+        # all-trimmed strings: both sides collapse to the same empty slice
+        if pc['method'] == 'trim_start_matches':
+            r = Str(s.b, both.lo, z3.If(both.hi > both.lo, s.hi, both.lo))
+        else:
+            r = Str(s.b, z3.If(both.hi > both.lo, s.lo, both.lo), both.hi)
+        return Ref(Loc(Cell(r, 'trim1')))
+
+    @M.reg('str::strip_suffix', 'str::strip_prefix')
+    def strip_affix(ip, pc, args, dt):
+        s, pat = as_str(args[0]), args[1]
+        if isinstance(pat, S) and pat.ty == 'char':
+            c = concrete_int(pat.t)
+            if c is None or c >= 0x80:
+                raise Unsupported('strip of a non-ASCII / symbolic char')
+            pb = bytes([c])
+        else:
+            pv = deref_all(pat)
+            pb = pv.concrete() if isinstance(pv, Str) else None
+            if pb is None:
+                raise Unsupported('strip with a symbolic pattern')
+        n = len(pb)
+        if pc['method'] == 'strip_prefix':
+            okc = s.starts_with(Str(list(pb), 0, n))
+            return opt_sym(okc, Ref(Loc(Cell(Str(s.b, z3.simplify(s.lo + n), s.hi), 'strip'))))
+        okc = z3.And([s.len_t() >= n] + [s.byte_at(z3.simplify(s.hi - n + j)) == pb[j] for j in range(n)])
+        return opt_sym(okc, Ref(Loc(Cell(Str(s.b, s.lo, z3.simplify(s.hi - n)), 'strip'))))
+
+    @M.reg('str::ends_with')
+    def ends_with(ip, pc, args, dt):
+        s, pat = as_str(args[0]), args[1]
+        if isinstance(pat, S) and pat.ty == 'char':
+            return bool_s(z3.And(s.len_t() > 0, s.byte_at(z3.simplify(s.hi - 1)) == pat.t))
+        pb = as_str(pat).concrete()
+        if pb is None:
+            raise Unsupported('ends_with a symbolic pattern')
+        n = len(pb)
+        return bool_s(z3.And([s.len_t() >= n] + [s.byte_at(z3.simplify(s.hi - n + j)) == pb[j] for j in range(n)]))
+
+    @M.reg('str::contains')
+    def contains(ip, pc, args, dt):
+        s, pat = as_str(args[0]), args[1]
+        if isinstance(pat, S) and pat.ty == 'char':
+            c = concrete_int(pat.t)
+            found, _ = s.find_byte(c)
+            return bool_s(found)
+        raise Unsupported('contains pattern')
+
     @M.reg('str::trim')
     def trim(ip, pc, args, dt):
         s = as_str(args[0])
